@@ -2,6 +2,7 @@
 """Copy confirmed seeded changes from the sub-agents' output directory into /verif/seeded/<id>/."""
 import glob, json, os, shutil, sys
 SRC = sys.argv[1] if len(sys.argv) > 1 else "/tmp/wtout"
+TAG = sys.argv[2] if len(sys.argv) > 2 else ""
 DST = os.path.join(os.path.dirname(os.path.dirname(os.path.abspath(__file__))), "seeded")
 n = 0
 for vf in sorted(glob.glob(os.path.join(SRC, "C*", "m*.verify.json"))):
@@ -12,7 +13,7 @@ for vf in sorted(glob.glob(os.path.join(SRC, "C*", "m*.verify.json"))):
     base = vf[:-len(".verify.json")]
     pid = os.path.basename(os.path.dirname(vf))
     k = os.path.basename(base)
-    d = os.path.join(DST, "%s-%s" % (pid, k))
+    d = os.path.join(DST, "%s-%s%s" % (pid, TAG, k))
     os.makedirs(d, exist_ok=True)
     shutil.copy(base + ".diff", os.path.join(d, "patch.diff"))
     shutil.copy(base + "_demo.py", os.path.join(d, "demo.py"))
@@ -27,7 +28,7 @@ for vf in sorted(glob.glob(os.path.join(SRC, "C*", "m*.verify.json"))):
         "summary": meta.get("summary", ""),
         "mechanism": meta.get("mechanism", ""),
         "needs": meta.get("needs", ""),
-        "origin": "written by a sub-agent given only the property text and a scratch worktree of /repo",
+        "origin": "written by a sub-agent given only the property text and a scratch worktree of /repo" + (" (second round: told which kinds of change had been tried already and asked for different ones)" if TAG else ""),
         "confirmed_by": {
             "how": "tools/verify_seeded.py: scratch copy of /repo with patch.diff applied (patch -p1); "
                    "PYTHONPATH=<copy> /venv/bin/python demo.py must exit != 0; the pinned suite "
